@@ -157,3 +157,22 @@ impl Database<Bytes, U64<NativeEndian>> {
             && (forall|i: int, j: int| 0 <= i < j < r->Ok_0.items@.len() ==> bytes_lt(#[trigger] r->Ok_0.items@[i].0, #[trigger] r->Ok_0.items@[j].0)),
     { unimplemented!() }
 }
+
+impl<'a> RoRange<'a, Bytes, Unit> {
+    #[verifier::external_body]
+    pub fn next(&mut self) -> (r: Option<Result<(&'a [u8], ()), HeedError>>)
+        ensures
+            final(self).items == old(self).items,
+            old(self).pos@ >= old(self).items@.len() ==> r is None && final(self).pos == old(self).pos,
+            old(self).pos@ < old(self).items@.len() ==> r is Some && final(self).pos@ == old(self).pos@ + 1,
+            (r is Some && r->Some_0 is Ok) ==> r->Some_0->Ok_0.0@ == old(self).items@[old(self).pos@].0,
+    { unimplemented!() }
+}
+impl Database<Bytes, Unit> {
+    #[verifier::external_body]
+    pub fn iter<'a>(&self, txn: &'a RoTxn<'_>) -> (r: Result<RoIter<'a, Bytes, Unit>, HeedError>)
+        ensures r is Ok ==> r->Ok_0.pos@ == 0
+            && (forall|i: int| 0 <= i < r->Ok_0.items@.len() ==> #[trigger] db_tab(txn.cur@, self.table@).contains_key(r->Ok_0.items@[i].0))
+            && (forall|k: Seq<u8>| #[trigger] db_tab(txn.cur@, self.table@).contains_key(k) ==> exists|i: int| 0 <= i < r->Ok_0.items@.len() && #[trigger] r->Ok_0.items@[i].0 == k),
+    { unimplemented!() }
+}
